@@ -31,6 +31,9 @@ def rand_label(rng, maxlen=12, exotic=0.1):
     else:
         n = rng.randint(1, maxlen)
     if rng.random() < exotic:
+        if n >= 2 and rng.random() < 0.3:
+            # label data that looks like a compression pointer to a small offset (a cycle hidden in label data)
+            return (bytes([0xC0, rng.randrange(12, 40)]) * n)[:n]
         return bytes(rng.randrange(256) for _ in range(n))
     if rng.random() < 0.15:
         return bytes(rng.choice(b"ABCDEFGHIJKLMNOPQRSTUVWXYZabcxyz019-_") for _ in range(n))
@@ -72,14 +75,19 @@ RR_TYPES = [T_A, T_AAAA, T_NS, T_CNAME, T_PTR, T_MX, T_SOA, T_SRV, T_TXT, T_OPT,
 class Enc:
     """wire writer with optional (incoming) compression pointers"""
 
-    def __init__(self, rng, ptr_prob=0.0):
+    def __init__(self, rng, ptr_prob=0.0, wild=0.0):
         self.b = bytearray()
         self.rng = rng
         self.ptr_prob = ptr_prob
+        self.wild = wild          # probability of a pointer to an ARBITRARY earlier offset (label data, RDATA, header)
         self.offs = {}
 
     def name(self, labels, allow_ptr=True):
         for i in range(len(labels)):
+            if self.wild and len(self.b) > 12 and self.rng.random() < self.wild:
+                p = self.rng.randrange(0, len(self.b))
+                self.b += bytes([0xC0 | (p >> 8), p & 0xFF])
+                return
             suf = tuple(labels[i:])
             if allow_ptr and suf in self.offs and self.rng.random() < self.ptr_prob:
                 p = self.offs[suf]
@@ -176,7 +184,7 @@ def gen_msg(rng, ptr_prob=None, max_rr=6, counts_lie=False, rdlen_lie=False, big
     """a structured, mostly valid message; returns bytes"""
     if ptr_prob is None:
         ptr_prob = rng.choice([0.0, 0.0, 0.5, 0.9])
-    e = Enc(rng, ptr_prob)
+    e = Enc(rng, ptr_prob, wild=rng.choice([0.0, 0.0, 0.0, 0.15, 0.5]))
     pool = NamePool(rng)
     ident = rng.randrange(65536)
     bits = 0
@@ -288,6 +296,17 @@ def boundary_msgs(rng):
     out.append(("ptr_last_octet", hdr(qd=1) + b"\x01a\xC0"))
     out.append(("ptr_beyond", hdr(qd=1) + b"\xFF\xFF" + q_tail))
     out.append(("label_then_loop", hdr(qd=1) + b"\x01a\xC0\x0C" + q_tail))
+    # pointer cycles hidden in bytes the decoder does not read as pointers the first time (label data, RDATA, header),
+    # reached from a LATER name: second question, RR owner, name inside RDATA
+    hid1 = b"\x02\xC0\x0D\x00" + q_tail                      # off 12: label {C0 0D}; offset 13 holds C0 0D -> 13
+    out.append(("hidcycle_q2", hdr(qd=2) + hid1 + b"\xC0\x0D" + q_tail))
+    out.append(("hidcycle_owner", hdr(qd=1, an=1) + hid1 + b"\xC0\x0D" + struct.pack(">HHIH", 1, 1, 60, 4) + b"\1\2\3\4"))
+    out.append(("hidcycle_rdata", hdr(qd=1, an=1) + hid1 + b"\x01a\x00" + struct.pack(">HHIH", 2, 1, 60, 2) + b"\xC0\x0D"))
+    hid2 = b"\x04\xC0\x0F\xC0\x0D\x00" + q_tail              # 13: C0 0F -> 15: C0 0D -> 13 (2-cycle in label data)
+    out.append(("hidcycle2_q2", hdr(qd=2) + hid2 + b"\xC0\x0D" + q_tail))
+    out.append(("hidcycle_hdr", struct.pack(">HHHHHH", 0xC000, 0x0100, 1, 0, 0, 0) + b"\xC0\x00" + q_tail))   # ID = C0 00 -> 0
+    raw = b"\x01a\x00" + struct.pack(">HHIH", 16, 1, 60, 4) + b"\xC0\x17\xC0\x17"     # TXT rdata at 23 holds C0 17 -> 23
+    out.append(("hidcycle_txt", hdr(an=2) + raw + b"\xC0\x17" + struct.pack(">HHIH", 1, 1, 60, 4) + b"\1\2\3\4"))
     for pre in (0x40, 0x80, 0x7F, 0xBF):
         out.append(("reserved%02x" % pre, hdr(qd=1) + bytes([pre]) + b"a" * 70 + b"\0" + q_tail))
     # RDLENGTH boundaries for A / AAAA
